@@ -45,3 +45,133 @@ PROPERTIES["C27"] = dict(
           bounds="complete", kernel=["ip_is_non_global"]),
     ],
 )
+
+# --------------------------------------------------------------------------- C04
+_C04_UNW = dict(unwind=4, unwindset=["memcmp.0:31"])
+_C04_ASSUME = ["every status code is an ASCII string of length 0..=29 (29 = longest code the decision compares against)",
+               "oracle is one-directional (Valid/Trusted only if ...): a stricter implementation is not reported"]
+
+
+def _c04(name, tiers, shape, timeout=1500, mem_gb=16):
+    return H("c04::" + name, tiers=tiers, timeout=timeout, mem_gb=mem_gb,
+             what="all assignments of arbitrary ASCII strings (len 0..=29) to the status-code slots of shape " + shape,
+             bounds="shape %s (success, informational, failure | per-delta success, failure); code length <= 29; --unwind 4, memcmp 31" % shape,
+             kernel=["ValidationResults::validation_state", "is_tolerated_manifest_failure_code", "StatusCodes::add_*_val",
+                     "ValidationResults::add_active_manifest/add_ingredient_delta"],
+             assumes=_C04_ASSUME, **_C04_UNW)
+
+
+PROPERTIES["C04"] = dict(
+    title="Validation state is derived soundly from validation codes",
+    level="model_checking",
+    level_text=("Bounded model checking of the compiled decision function: for each fixed shape of status lists, CBMC decides for "
+                "ALL assignments of arbitrary ASCII strings (length 0..=29) to every status-code slot, and all presence flags, that "
+                "Valid/Trusted are returned only when the property's conditions hold on the raw bytes. The decision is a function "
+                "over a combinatorial domain where one particular code in one particular list matters; the solver covers them all."),
+    level_note=("Kernel-level: ValidationResults::validation_state + builders + add_status routing. Not covered: from_store "
+                "filtering, Reader::validation_state legacy fallback (needs a Reader), failure-summary formatting. Shapes are "
+                "bounded (<=3 success, <=1 informational, <=2 failures per list, <=2 deltas). Trusted: Kani, CBMC, CaDiCaL; oracle "
+                "transcribed from the property text, one-directional."),
+    scope="ValidationResults::validation_state over status lists built with the public builders and with add_status",
+    outside=["ValidationResults::from_store", "Reader::validation_state legacy status-list fallback", "ValidationFailureSummary formatting",
+             "lists longer than the shapes enumerated", "codes longer than 29 bytes / non-ASCII codes"],
+    assumptions=["Kani's MIR->goto translation, CBMC 6.11 and CaDiCaL are sound",
+                 "c2pa built with default-features=false, features=[rust_native_crypto] (kernel is crypto-independent)"],
+    harnesses=[
+        _c04("c04_s0_i0_f0", Q, "(0,0,0|-)", timeout=300),
+        _c04("c04_s2_i0_f0", T, "(2,0,0|-)"),
+        _c04("c04_s2_i0_f1", Q, "(2,0,1|-)"),
+        _c04("c04_s3_i0_f0", Q, "(3,0,0|-)"),
+        _c04("c04_s3_i1_f0", T, "(3,1,0|-)"),
+        _c04("c04_s3_i0_f1", T, "(3,0,1|-)"),
+        _c04("c04_s3_i0_f2", T, "(3,0,2|-)"),
+        _c04("c04_s3_i1_f2", T, "(3,1,2|-)"),
+        _c04("c04_s2_i0_f0_d01", Q, "(2,0,0|0,1)"),
+        _c04("c04_s3_i0_f0_d01", T, "(3,0,0|0,1)"),
+        _c04("c04_s3_i1_f1_d11", T, "(3,1,1|1,1)"),
+        _c04("c04_s3_i0_f0_d02", T, "(3,0,0|0,2)"),
+        _c04("c04_s3_i1_f2_d12", T, "(3,1,2|1,2)", timeout=3000),
+        _c04("c04_s2_i0_f0_dd11", T, "(2,0,0|0,1|0,1)"),
+        _c04("c04_s3_i0_f1_dd01", T, "(3,0,1|0,0|0,1)"),
+        _c04("c04_s3_i0_f0_dd12", T, "(3,0,0|0,1|0,2)", timeout=3000),
+        _c04("c04_s3_i0_f0_d10", Q, "(3,0,0|1,0)"),
+        H("c04::c04_add_status_active", tiers=Q, timeout=1500, mem_gb=20,
+          what="two required success codes + 1 status with symbolic code (ASCII, len<=29) and symbolic kind, all routed by "
+               "ValidationResults::add_status to the active manifest",
+          bounds="1 symbolic status; --unwind 5, memcmp 31",
+          kernel=["ValidationResults::add_status", "StatusCodes::add_status", "ValidationResults::validation_state"],
+          assumes=_C04_ASSUME, unwind=5, unwindset=["memcmp.0:31"]),
+        H("c04::c04_add_status_ingredient", tiers=T, timeout=1500, mem_gb=20,
+          what="Trusted-worthy active manifest + 1 status with symbolic code and kind routed by add_status to an ingredient delta",
+          bounds="1 symbolic status, 1 ingredient URI; --unwind 5, memcmp 31",
+          kernel=["ValidationResults::add_status", "StatusCodes::add_status", "ValidationResults::validation_state"],
+          assumes=_C04_ASSUME, unwind=5, unwindset=["memcmp.0:31"]),
+        H("c04::c04_success_codes_on_delta_do_not_count", tiers=T, timeout=900, mem_gb=16,
+          what="required success codes placed on an ingredient delta, one symbolic success code on the active manifest",
+          bounds="1 symbolic status; --unwind 5, memcmp 31",
+          kernel=["ValidationResults::validation_state"], assumes=_C04_ASSUME,
+          unwind=5, unwindset=["memcmp.0:31"]),
+    ],
+)
+
+# --------------------------------------------------------------------------- C11
+_TRUST = ["Kani's MIR->goto translation, CBMC 6.11 and CaDiCaL are sound",
+          "c2pa built with default-features=false, features=[rust_native_crypto] (kernels are crypto-independent; pdf feature off)"]
+
+PROPERTIES["C11"] = dict(
+    title="The reader's verdict does not depend on a wrong format hint",
+    level="model_checking",
+    level_text=("Bounded model checking of the two functions through which Reader::with_stream chooses the handler family: for ALL "
+                "streams of 0..=24 arbitrary bytes (covers the 16-byte sniff window and the ID3->fLaC peek) and every hint family, "
+                "CBMC decides that detection is total, rewinds the stream, recognises every documented magic number, and that the "
+                "format handed to the handler lookup is of the detected family whatever the hint says."),
+    level_note=("Kernel-level: container_from_stream + format_from_stream. What the chosen handler and the Store then do with the "
+                "stream is outside (heap-heavy, not executable symbolically). container_from_format (lazy_static HashMap) is stubbed "
+                "by the family the harness chose for the hint; in native playback the real registry is used."),
+    scope="jumbf_io::container_from_stream and jumbf_io::format_from_stream over Cursor<&[u8]>",
+    outside=["everything Reader::with_stream does after choosing the handler", "streams whose identifying bytes lie beyond offset 24 (ID3 tags longer than 10 bytes)",
+             "the registry contents (container_from_format) itself"],
+    assumptions=_TRUST + ["oracle magic-number table transcribed from the property text; inputs matching two signatures at once are left unspecified"],
+    harnesses=[
+        H("c11::c11_detection_total_and_rewinds", unwind=26, timeout=900,
+          what="all byte strings of length 0..=24 as stream content", bounds="24 bytes; --unwind 26",
+          kernel=["jumbf_io::container_from_stream"]),
+        H("c11::c11_hint_never_overrides_detection", unwind=26, timeout=900, stubbing=True,
+          what="all byte strings of length 0..=24 x 13 hints (11 container ids, one MIME type, one unknown)",
+          bounds="24 bytes; 13 hints; --unwind 26", kernel=["jumbf_io::format_from_stream", "jumbf_io::container_from_stream"],
+          assumes=["stub: container_from_format(hint) returns the family the harness chose for that hint"]),
+    ],
+)
+
+# --------------------------------------------------------------------------- C35
+PROPERTIES["C35"] = dict(
+    title="Results do not depend on stream chunking, and I/O errors are never hidden",
+    level="model_checking",
+    level_text=("Bounded model checking of the shared stream kernels under a symbolic I/O schedule: the harness stream returns a "
+                "solver-chosen number of bytes (>=1) on every read and can fail at a solver-chosen call index; CBMC decides for ALL "
+                "schedules, ALL contents up to 24 bytes and ALL positions that the result equals the full-read result and that an "
+                "injected error is never turned into Ok."),
+    level_note=("Kernel-level: format sniffing (container_from_stream) and the io_utils helpers (stream_len, read_to_vec). The "
+                "per-format handlers, Store and signing are outside (not executable symbolically). Trusted: Kani, CBMC, CaDiCaL; "
+                "the SymStream model of Read+Seek (short reads >= 1 byte, ErrorKind::Other failures)."),
+    scope="jumbf_io::container_from_stream, io_utils::stream_len, ReaderUtils::read_to_vec driven by a symbolic-schedule stream",
+    outside=["asset handler read loops, BoxReader, Store, Builder::sign", "write-side short writes", "streams longer than 24 bytes"],
+    assumptions=_TRUST + ["a read never returns 0 bytes while data remains (Read contract)", "failures are io::ErrorKind::Other"],
+    harnesses=[
+        H("c35::c35_sniff_chunking_independent", unwind=26, timeout=1200,
+          what="all streams of 0..=24 bytes x all short-read schedules", bounds="24 bytes, every read returns symbolic k in 1..=requested; --unwind 26",
+          kernel=["jumbf_io::container_from_stream"]),
+        H("c35::c35_sniff_id3_peek_chunking_independent", unwind=26, timeout=1200,
+          what="ID3-tagged streams of 10..=24 bytes, first read full, later reads short", bounds="24 bytes; --unwind 26",
+          kernel=["jumbf_io::container_from_stream"]),
+        H("c35::c35_sniff_fault_never_invents", unwind=26, timeout=1200,
+          what="all streams of 0..=24 bytes x failure injected at call index 0..7", bounds="24 bytes, 8 fault points; --unwind 26",
+          kernel=["jumbf_io::container_from_stream"]),
+        H("c35::c35_stream_len_preserves_position_and_propagates_errors", unwind=26, timeout=600,
+          what="all lengths 0..=24 x all u64 positions x failure at seek index 0..2", bounds="complete for the seek logic; --unwind 26",
+          kernel=["io_utils::stream_len"]),
+        H("c35::c35_read_to_vec_chunking_and_errors", unwind=12, timeout=1800,
+          what="streams of 0..=8 bytes x position 0..=9 x all u64 request sizes x all short-read schedules x failure at call 0..5",
+          bounds="8 bytes; --unwind 12", kernel=["ReaderUtils::read_to_vec", "io_utils::safe_vec"]),
+    ],
+)
